@@ -457,6 +457,25 @@ def dbDelete (sch : Schema) (db : Db) (rows : List ObjId) : Option Db :=
                       col := fun o a => if D.contains o then none else col o a,
                       link := fun c p q => db.link c p q && !D.contains p && !D.contains q }
 
+/-! ### an executable ranking of the cascade graph (longest cascade path, cut at `n`) -/
+
+/-- `p` holds `q` under an attribute with cascade_delete -/
+def edgeB (sch : Schema) (s : Store) (p q : ObjId) : Bool :=
+  sch.allAttrs.any fun b => sch.isCascade b && hasB sch s p b q
+
+def maxL : List Nat → Nat
+  | [] => 0
+  | x :: xs => max x (maxL xs)
+
+/-- length of the longest cascade path from `p`, cut at `k` steps -/
+def depth (sch : Schema) (s : Store) : Nat → ObjId → Nat
+  | 0, _ => 0
+  | k + 1, p => maxL (((List.range s.n).filter (edgeB sch s p)).map fun q => depth sch s k q + 1)
+
+/-- does `depth n` strictly decrease along every cascade edge between existing objects (true iff the cascade graph has no cycle) -/
+def isRankedB (sch : Schema) (s : Store) : Bool :=
+  (List.range s.n).all fun p => (List.range s.n).all fun q => !edgeB sch s p q || decide (depth sch s s.n q < depth sch s s.n p)
+
 /-! ### executable observations (driver, `example`s) -/
 
 def refsOf (sch : Schema) (ct : ClassTable) (s : Store) (o : ObjId) : List (Attr × Option ObjId) :=
